@@ -1340,7 +1340,10 @@ def check_tables(ctx):
     from scipy.interpolate import PchipInterpolator
     from photutils.utils import _stats as pstats
     from . import c10_translate as T
-    ns = dict(np=np, u=u, ndi=ndi, extract_array=extract_array, PchipInterpolator=PchipInterpolator, pstats=pstats)
+    from astropy.modeling.fitting import TRFLSQFitter
+    from astropy.modeling.models import Gaussian1D, Gaussian2D
+    ns = dict(np=np, u=u, ndi=ndi, extract_array=extract_array, PchipInterpolator=PchipInterpolator, pstats=pstats,
+              TRFLSQFitter=TRFLSQFitter, Gaussian1D=Gaussian1D, Gaussian2D=Gaussian2D)
     rows = [(k, r) for k, r in T.EXT.items()] + [('method.' + k, r) for k, r in T.METHODS.items()]
     bad = []
     nprobed = nruns = 0
@@ -1444,15 +1447,10 @@ def static_obligations(ctx, found):
             names = dict(enumerate(r['vars']))
             d = T.diagnose(r['params'], r['prog'], names)
             detail['rejected_write'] = d
-            k = idx.index(i)
-            try:
-                detail['model'] = ctx.coq_eval_term(['C10_Model'], f'model_out {terms[k]}')
-                pl = '[' + '; '.join(f'{x}%nat' for x in r['params']) + ']'
-                cul = ctx.coq_eval_term(['C10_Model'], f'culprits {pl} {T.to_coq(r["prog"])}')
-                inv = {v: n for n, v in r['names'].items()}
-                detail['parameters_that_may_be_written'] = [inv.get(int(x), x) for x in __import__('re').findall(r'\d+', cul)]
-            except Exception as e:       # diagnostics only
-                detail['model'] = f'(detail evaluation failed: {e})'
+            inv = {v: n for n, v in r['names'].items()}
+            # which parameters taken alone are rejected (diagnostic replica; the verdict is Coq's)
+            detail['parameters_that_may_be_written'] = [inv.get(p_, p_) for p_ in r['params']
+                                                        if T.diagnose([p_], r['prog'], names)]
             why = ('the analysis does not accept the IR of the current source'
                    + (f': {d}' if d else ' (observed result aliasing not predicted)'))
         import re
